@@ -37,6 +37,7 @@ DUNDERS = {
 
 def _wrap(owner, name, fn):
     qual = "%s.%s" % (owner, name)
+    deep = []  # hooks called after a normal return at ANY depth: h(args, kwargs, result)
 
     @functools.wraps(fn)
     def w(*a, **k):
@@ -47,9 +48,13 @@ def _wrap(owner, name, fn):
         if d:
             _D[0] = d + 1
             try:
-                return fn(*a, **k)
+                r = fn(*a, **k)
             finally:
                 _D[0] = d
+            if deep:
+                for h in deep:
+                    h(a, k, r)
+            return r
         BOUNDARY[qual] += 1
         ls = LISTENERS
         _D[0] = 1
@@ -65,6 +70,9 @@ def _wrap(owner, name, fn):
                     l("raise", qual, a, k, e)
             raise
         else:
+            if deep:
+                for h in deep:
+                    h(a, k, r)
             if ls:
                 for l in ls:
                     l("return", qual, a, k, r)
@@ -74,6 +82,7 @@ def _wrap(owner, name, fn):
 
     w.__vp_wrapped__ = True
     w.__vp_orig__ = fn
+    w.__vp_deep__ = deep
     return w
 
 
@@ -167,6 +176,13 @@ def muted():
         yield
     finally:
         _MUTE[0] -= 1
+
+
+def deep_hook(cls, name, hook):
+    """hook(args, kwargs, result) is called after every normal return of cls.name, at any depth."""
+    f = vars(cls)[name]
+    f = getattr(f, "__func__", f)
+    f.__vp_deep__.append(hook)
 
 
 def subscribe(listener):
